@@ -44,6 +44,7 @@ type OpProfile struct {
 	HostileStrings bool    // string literals / variable values with quotes, backslashes, unicode, control characters
 	Pool           int     // id pool size for node roots
 	PFragReuse     float64 // where a finished named fragment fits, spread it again instead of generating fields
+	PDupKey        float64 // an object-valued field is selected twice under one response key with different sub-selections
 	HostileAliases bool    // aliases `id` / `node` on other fields
 	PVarNamedID    float64 // a String/ID variable is named `id` (the name the gateway uses itself) and holds an object id
 	PNodeSecond    float64 // a root node selection carries a fragment on a second entity type (default 0.2)
@@ -410,6 +411,11 @@ func (g *opGen) field(parent *ast.Definition, f *ast.FieldDefinition, depth int,
 	out := alias + f.Name + args + dir
 	if comp {
 		out += " " + g.selectionSet(td, depth-1)
+		if g.p.PDupKey > 0 && g.chance(g.p.PDupKey) {
+			// the same response key (same field, same arguments) selected again with another sub-selection: fields merge
+			out += " " + alias + f.Name + args + dir + " " + g.selectionSet(td, depth-1)
+			g.tag("dup-key-direct")
+		}
 	}
 	return out
 }
